@@ -223,10 +223,19 @@ func c06Compiled(o *cli.Opts, run *evid.Run) {
 	if !o.Thorough() {
 		names = []string{"bn254", "bls12-377", "bls12-381", "bw6-761"}
 	}
-	cli.ForEach(len(names), 0, func(fi int) {
-		name := names[fi]
+	type fw struct {
+		name  string
+		extra int
+	}
+	var fws []fw
+	for _, nm := range names {
+		fws = append(fws, fw{nm, 0})
+	}
+	fws = append(fws, fw{"bn254", 8}, fw{"bn254", 256}, fw{"bls12-381", 8}) // widths beyond the first byte-aligned one
+	cli.ForEach(len(fws), 0, func(fi int) {
+		name := fws[fi].name
 		p := fields[name]
-		n := alignUp(p.BitLen())
+		n := alignUp(p.BitLen()) + fws[fi].extra
 		key := fmt.Sprintf("C06/r1cs/%s/n=%d", name, n)
 		if !run.Wants(key) {
 			return
@@ -261,7 +270,7 @@ func c06Compiled(o *cli.Opts, run *evid.Run) {
 				}
 				try(fmt.Sprintf("flip%d/%s", q, low), v)
 			}
-			if name == "bn254" {
+			if name == "bn254" && fws[fi].extra == 0 {
 				run.Add("bn254_positions_probed", 1)
 			}
 		}
